@@ -25,6 +25,7 @@ class Report:
     def __init__(self, rule, exhaustive=False):
         self.r = dict(evaluations=0, distinct_nontrivial=0, rule=rule, samples=[], exhaustive=exhaustive, failures=[], assumptions=[])
         self.seen = set()
+        self.per_key = {}
     def case(self, key, nontrivial=True, sample=None):
         self.r["evaluations"] += 1
         if nontrivial and key not in self.seen:
@@ -32,8 +33,12 @@ class Report:
         if sample is not None and len(self.r["samples"]) < 8:
             self.r["samples"].append(sample)
     def fail(self, id, key, detail, cex=None):
-        if len(self.r["failures"]) < 60:
+        # at most 3 reports per key (a key names one failing input class), so that one root cause cannot crowd out others
+        n = self.per_key.get(key, 0)
+        self.per_key[key] = n + 1
+        if n < 3 and len(self.r["failures"]) < 150:
             self.r["failures"].append(dict(id=f"{id}#{len(self.r['failures'])}", key=key, detail=detail, cex=cex))
     def assume(self, s): self.r["assumptions"].append(s)
     def done(self):
+        self.r["failures_per_key"] = dict(self.per_key)
         print(json.dumps(self.r, default=str)); sys.stdout.flush()
